@@ -190,12 +190,13 @@ class Engine:
         for b in bags:
             ev = to_val(b.elem)
             # common case: elem is exactly one binder and it's the only binder
-            if len(b.binders) == 1 and z3.eq(ev, b.binders[0]):
+            if len(b.binders) == 1 and not b.aux and z3.eq(ev, b.binders[0]):
                 disj.append(z3.substitute(b.cond, (b.binders[0], v)))
-            elif not b.binders:
+            elif not b.binders and not b.aux:
                 disj.append(z3.And(b.cond, ev == v))
             else:
-                disj.append(z3.Exists(b.binders, z3.And(b.cond, ev == v)))
+                # auxiliary constants here are results of functional callee contracts (determined by defs)
+                disj.append(z3.Exists(b.binders + b.aux, z3.And(b.defs, b.cond, ev == v)))
         body = z3.Or(*disj) if disj else z3.BoolVal(False)
         st.define(z3.ForAll([v], z3.Select(s, v) == body))
         return sv_set(s)
@@ -395,15 +396,15 @@ class Engine:
                 return [(st, None)]
             if isinstance(v, ast.Yield):
                 val = self.eval(v.value, st) if v.value is not None else sv_none()
-                st.bags.append(Bag(list(st.binders), self._local_cond(st, sv_terms(val)), val,
-                                   tag="line%d" % node.lineno))
+                dec, defs = self._local_cond(st, sv_terms(val))
+                st.bags.append(Bag(list(st.binders), dec, val, tag="line%d" % node.lineno, defs=defs))
                 return [(st, None)]
             if isinstance(v, ast.YieldFrom):
                 src = self.eval(v.value, st)
                 for b in self.bags_of(src, st):
-                    news, cond, elem = b.instantiate("y")
-                    st.bags.append(Bag(list(st.binders) + news, z3.And(self._local_cond(st), cond), elem,
-                                       tag="line%d" % node.lineno))
+                    dec, defs = self._local_cond(st, [b.cond, b.defs] + sv_terms(b.elem))
+                    st.bags.append(Bag(list(st.binders) + b.binders, z3.And(dec, b.cond), b.elem,
+                                       tag="line%d" % node.lineno, defs=z3.And(defs, b.defs), aux=b.aux))
                 return [(st, None)]
             self.eval(v, st)
             return [(st, None)]
@@ -702,6 +703,12 @@ class Engine:
             if ci is not None and ci.lookup("__iter__"):
                 r = self.call_method(it, ci, "__iter__", [], {}, st)
                 return self.bags_of(r, st)
+            lw = self.prog.classes.get("ListWrapper")
+            if ci is not None and lw in ci.mro:
+                # collections.abc.Sequence.__iter__ (assumed mixin contract): yields self[0], self[1], ...
+                # until IndexError; ListWrapper.__getitem__(i) is self._data[i]  =>  the items of _data in order
+                r = self.as_ref(it, st, "iterated list wrapper")
+                return self.bags_of(self.schema.post_read(it, "_data", self.read_field(st, r, it.cls, "_data")), st)
         if k == "py" and isinstance(it.x, tuple) and len(it.x) == 0:
             return []
         raise Unsupported("iteration over %s (cls=%s)" % (k, it.cls))
@@ -772,10 +779,11 @@ class Engine:
         heap_before = dict(base.heap)
         for b in bags:
             mark = serial_mark()
-            news, cond, elem = b.instantiate("it")
+            news, cond, elem, bdefs = b.instantiate("it")
             s = base.fork()
             s.binders = st.binders + news
             s.assume(cond)
+            s.define(bdefs)
             res = body(s, elem)
             for item in res:
                 if collect == "values":
@@ -800,15 +808,17 @@ class Engine:
                         raise Unsupported("%s writes heap field %s: needs a loop invariant" % (where, key))
                 if use_region:
                     s2.oblige("region.step(%s)" % where, self.cur_contract.region_invariant(Ctx(self, dict(s2.heap))))
-                produced = s2.bags[nbags0:] if collect == "yields" else \
-                    [Bag(list(s2.binders), local_cond(s2, len(st.pc), mark, sv_terms(val)), val)]
+                if collect == "yields":
+                    produced = s2.bags[nbags0:]
+                else:
+                    dec, defs = local_cond(s2, len(st.pc), mark, sv_terms(val))
+                    produced = [Bag(list(s2.binders), dec, val, defs=defs)]
                 for bag in produced:
-                    aux = [x for x in consts_since([bag.cond] + sv_terms(bag.elem), mark)
-                           if not any(x.eq(y) for y in bag.binders)]
-                    nb = Bag(bag.binders + aux, bag.cond, bag.elem, bag.tag)
+                    aux = [x for x in consts_since([bag.cond, bag.defs] + sv_terms(bag.elem), mark)
+                           if not any(x.eq(y) for y in bag.binders) and not any(x.eq(y) for y in bag.aux)]
+                    nb = Bag(bag.binders, bag.cond, bag.elem, bag.tag, bag.defs, bag.aux + aux)
                     if use_region:
-                        bad = [str(x) for x in consts_since([nb.cond] + sv_terms(nb.elem), 0) if _is_region_array(x, rkeys)]
-                        bad += [n for n in _named_consts([nb.cond] + sv_terms(nb.elem)) if _is_region_name(n, rkeys)]
+                        bad = [n for n in _named_consts([nb.cond] + sv_terms(nb.elem)) if _is_region_name(n, rkeys)]
                         if bad:
                             raise Unsupported("%s: yielded condition depends on index-region state %s" % (where, bad[:3]))
                     new_bags.append(nb)
@@ -968,8 +978,7 @@ class Engine:
                 or (a.k == "py" and a.x == ()) or (b.k == "py" and b.x == ()):
             ba = self.bags_of(a, st)
             bb = self.bags_of(b, st)
-            return SV("gen", x=[Bag(x.binders, z3.And(c, x.cond), x.elem, x.tag) for x in ba] +
-                               [Bag(x.binders, z3.And(z3.Not(c), x.cond), x.elem, x.tag) for x in bb])
+            return SV("gen", x=[x.with_cond(c) for x in ba] + [x.with_cond(z3.Not(c)) for x in bb])
         if a.k in ("list", "bytes") and b.k == a.k:
             return SV(a.k, z3.If(c, a.t, b.t), x=z3.If(c, a.x, b.x), cls=a.cls)
         cls = a.cls if a.cls == b.cls else (a.cls or b.cls if (a.k == "none" or b.k == "none") else None)
@@ -1340,16 +1349,17 @@ class Engine:
             if i == len(gens):
                 v = self.eval(elt, s)
                 # conditions assumed while evaluating (callee posts etc.) are part of the element condition
-                cond = local_cond(s, len(st.pc), mark0, sv_terms(v))
-                aux = [x for x in consts_since([cond] + sv_terms(v), mark0) if not any(x.eq(y) for y in binders)]
-                return [Bag(binders + aux, cond, v)]
+                cond, defs = local_cond(s, len(st.pc), mark0, sv_terms(v))
+                aux = [x for x in consts_since([cond, defs] + sv_terms(v), mark0) if not any(x.eq(y) for y in binders)]
+                return [Bag(binders, cond, v, defs=defs, aux=aux)]
             g = gens[i]
             it = self.eval(g.iter, s)
             out = []
             for b in self.bags_of(it, s):
-                news, cond, elem = b.instantiate("c")
+                news, cond, elem, bdefs = b.instantiate("c")
                 s2 = s.fork()
                 s2.assume(cond)
+                s2.define(bdefs)
                 self.assign(g.target, elem, s2)
                 cs = [cond]
                 for cexpr in g.ifs:
@@ -1487,7 +1497,7 @@ class Engine:
             sname = fi.params()[0][0]
             sv = env[sname]
             if sv.k in ("ref", "val") and sv.cls is None:
-                env[sname] = SV(sv.k, sv.t, cls=self_cls)
+                env[sname] = SV(sv.k, sv.t, cls=self_cls, x=sv.x)
         # annotate params with static classes from annotations
         for pname in list(env):
             ann = fi.annotation(pname) if not isinstance(fi.node, ast.Lambda) else None
@@ -1545,7 +1555,8 @@ class Engine:
             # strip the caller's binder prefix: bags are values, caller binders stay free
             res = []
             for b in bags:
-                res.append(Bag([x for x in b.binders if not any(x is y for y in st.binders)], b.cond, b.elem, b.tag))
+                res.append(Bag([x for x in b.binders if not any(x is y for y in st.binders)], b.cond, b.elem, b.tag,
+                               b.defs, b.aux))
             return SV("gen", x=res)
         if len(normal) == 1:
             s, v = normal[0]
@@ -1651,11 +1662,12 @@ def _named_consts(exprs):
 
 
 def local_cond(st, mark, serial, extra_terms=()):
+    """-> (decisions, definitions): see State.assume / Bag."""
     dec, other = [], []
     for i in range(mark, len(st.pc)):
         (other if i in st.nondec else dec).append(st.pc[i])
     if not other:
-        return z3.And(*dec) if dec else z3.BoolVal(True)
+        return (z3.And(*dec) if dec else z3.BoolVal(True)), z3.BoolVal(True)
     aux = {c.get_id() for c in consts_since(dec + list(extra_terms), serial)}
     other_consts = [(f, {c.get_id() for c in consts_since([f], serial)}) for f in other]
     chosen = []
@@ -1672,8 +1684,7 @@ def local_cond(st, mark, serial, extra_terms=()):
             else:
                 rest.append((f, cs))
         other_consts = rest
-    allc = dec + chosen
-    return z3.And(*allc) if allc else z3.BoolVal(True)
+    return (z3.And(*dec) if dec else z3.BoolVal(True)), (z3.And(*chosen) if chosen else z3.BoolVal(True))
 
 
 def _assigned_names(stmts):
